@@ -9,5 +9,6 @@ CONSTANTS
   SerialReg = TRUE
   MaxBatch = 1
   RetryEnds = FALSE
+  MaxAck = 0
 INVARIANTS RetryCanEnd
 CHECK_DEADLOCK FALSE
